@@ -3,7 +3,7 @@ import numpy as np
 from ..core import pmap
 from .. import explore as EXP
 from .. import e1
-from ..nets import ssa_networks, big_networks, reachable
+from ..nets import ssa_networks, big_networks, scale_networks, reachable
 from ..ref import ssa as RS
 
 GRIDS = {
@@ -49,6 +49,11 @@ def configs(tier):
                 out.append(dict(spec=sp, grid=g, safe=safe, bound=b, kind='run', route='sim'))
                 if tier == 'thorough' or safe:
                     out.append(dict(spec=sp, grid=g, safe=safe, bound=b, kind='run', route='entry'))
+    for i, (sp, grid) in enumerate(scale_networks()):
+        GRIDS['scale%d' % i] = grid
+        for safe in (False, True):
+            out.append(dict(spec=sp, grid='scale%d' % i, safe=safe, bound=3, kind='run', route='sim'))
+            out.append(dict(spec=sp, grid='scale%d' % i, safe=safe, bound=2, kind='run', route='entry'))
     return out
 
 
@@ -124,7 +129,7 @@ def run(ctx):
                 'reference direct-method sampler is explored to the cost bound (every waiting-time draw: cross / just after '
                 'now / mid / just before the next grid time / far; every reaction draw: middle and both edges of every live '
                 'bucket) and every complete trace is replayed on SSASimulator (directly and through py_simulate_model(stochastic=True)) under the scripted stream; plus the same '
-                'exploration (bound 2) started from every reachable state, on and between grid times; plus (bound 2) six larger networks (counts 50-200, seven species / eight channels, ten channels) on grids of 11 (thorough: 3, 11, 33) points. states = distinct '
+                'exploration (bound 2) started from every reachable state, on and between grid times; plus (bound 2) six larger networks (counts 50-200, seven species / eight channels, ten channels) on grids of 11 (thorough: 3, 11, 33) points, and (bound 3) three networks whose rates are of magnitude 1e-11 / 1e9 (grids scaled accordingly) or mix 1e-12 with 1. states = distinct '
                 '(state, grid index) pairs visited by the reference; transitions = draws; a configuration is non-trivial '
                 'when its traces have more than one distinct outcome.')
     ctx.assumptions = ['uniform -> (waiting time, reaction) mapping of the direct method: tau = -ln(u)/Lambda, '
